@@ -179,6 +179,38 @@ func main() {
 		rhs := lastTopAssign(fm.Body, recv, field)
 		clears[field] = rhs != nil && isZero(fm.Body, rhs)
 	}
+	// `*n = node[K, V]{}` (a composite literal without elements) resets every field at once; a field
+	// assigned again afterwards keeps what the later assignment gives it
+	for i, st := range fm.Body.List {
+		as, ok := st.(*ast.AssignStmt)
+		if !ok || as.Tok != token.ASSIGN || len(as.Lhs) != 1 || len(as.Rhs) != 1 {
+			continue
+		}
+		star, ok := as.Lhs[0].(*ast.StarExpr)
+		if !ok {
+			continue
+		}
+		id, ok := star.X.(*ast.Ident)
+		lit, ok2 := as.Rhs[0].(*ast.CompositeLit)
+		if !ok || !ok2 || id.Name != recv || len(lit.Elts) != 0 {
+			continue
+		}
+		for _, field := range []string{"key", "value", "next"} {
+			later := false
+			for _, st2 := range fm.Body.List[i+1:] {
+				if as2, ok := st2.(*ast.AssignStmt); ok {
+					for _, l := range as2.Lhs {
+						if r, fld, ok := fieldOf(l); ok && r == recv && fld == field {
+							later = true
+						}
+					}
+				}
+			}
+			if !later {
+				clears[field] = true
+			}
+		}
+	}
 
 	// --- newNode(key, val)
 	nn := findFunc(f, "newNode")
